@@ -587,6 +587,14 @@ func fatalClass(stderr string, wedged bool) (reason, where string) {
 	if i := strings.Index(reason, ":"); i > 0 {
 		reason = reason[:i]
 	}
+	if wedged {
+		// only the goroutine dump the worker wrote on request
+		if i := strings.LastIndex(stderr, dumpBegin); i >= 0 {
+			stderr = stderr[i:]
+		} else {
+			stderr = ""
+		}
+	}
 	count := map[string]int{}
 	for _, ln := range strings.Split(stderr, "\n") {
 		if !strings.HasPrefix(ln, elpsMod) {
